@@ -12,10 +12,19 @@ def run(chk, replay=None):
                 "changed body falsifies the body-hash check; a header made by the hot-key holder from one changed input "
                 "never passes both validators; every check is the only rejecting one for some case (Isolated), and the "
                 "window's upper end differs exactly at offset maxEvol (WindowEdge). Cases = layout x period offset {-1, 0, "
-                "max-1, max} x {as built, 30 tamper mutations, 11 insider mutations}. Each is replayed with real Ed25519 / "
+                "max-1, max} x {as built, 30 tamper mutations, 12 insider mutations}. Each is replayed with real Ed25519 / "
                 "KES (depth 6) / VRF keys: BuildHeader (f = 1), mutation, era wire format, ledger decoders, ValidateHeader "
                 "and VerifyBlock; the verdicts valid / ok must equal the specification's. A case = one key (layout, offset, "
-                "regime, mutation, era, network parameters); all are non-trivial.")
+                "regime, mutation, era, network parameters); all are non-trivial. HISTORY: the model's state is the sequence of "
+                "cases ONE validator instance has been shown (Init = one case on a fresh validator, Next = the same "
+                "instance is shown another case); histories = ordered pairs of cases of one layout of which at least one "
+                "is accepted (thorough: any two period offsets, and the first case once more as a third step). TLC checks "
+                "HistoryIrrelevant (every step gets the verdict of a fresh validator), ReplayNeedsCold (after or before an "
+                "accepted header, the same (issuer, hot key, counter, period) under another cold signature fails check 9, "
+                "however much of the rest is re-signed by the hot key), AcceptedPins, and that histories exist where the "
+                "cold signature / each check is the only rejecting one next to an accepted header (CertReplayObservable, "
+                "HistIsolated). Each history is replayed on one HeaderValidator instance (and one ledger state for "
+                "VerifyBlock); every step's verdict must equal its row's. A history = one key.")
     chk.assumptions = [
         "VRF, Ed25519 and KES are unforgeable and hashes collision free (symbolic in the model, real in the replay)",
         "a bit flip in a key, proof or signature yields an invalid one (seeded position)",
@@ -30,10 +39,16 @@ def run(chk, replay=None):
     cases = os.path.join(r.dir, "cases.ndjson")
     if not os.path.exists(cases) or os.path.getsize(cases) == 0:
         raise vlib.MachineryError("TLC did not emit cases.ndjson")
+    hists = os.path.join(r.dir, "histories.ndjson")
+    if not os.path.exists(hists) or os.path.getsize(hists) == 0:
+        raise vlib.MachineryError("TLC did not emit histories.ndjson")
     n = sum(1 for _ in open(cases))
-    if n != r.distinct:
-        raise vlib.MachineryError("emitted %d cases but TLC found %d states" % (n, r.distinct))
+    nh = sum(1 for _ in open(hists))
+    # a state = the history one validator instance has been shown (length 1 = a case on a fresh validator)
+    if n + nh != r.distinct:
+        raise vlib.MachineryError("emitted %d cases + %d histories but TLC found %d states" % (n, nh, r.distinct))
+    chk.extra["c40_tlc_cases_and_histories"] = {"cases_on_a_fresh_validator": n, "histories_on_one_validator": nh}
     drv = vlib.go_build("c40")
-    vlib.run_driver(chk, drv, [cases], timeout=540)
+    vlib.run_driver(chk, drv, [cases, hists], timeout=900)
     # exhaustive over the model's case space; keys and bit positions are sampled
     chk.exhaustive = False
